@@ -110,6 +110,7 @@ def main(tier, seed):
             slim['src_b64'] = c.get('src_b64')
         run.add(slim, r)
     pool.run_cases(light, 'vf.props.nameeng:run_case', timeout=30, batch=20, on_result=on, deadline=run.deadline)
+    nameeng.foreign_layer(run, PROP, light, tier, per_version=350 if tier == 'quick' else 6000)
     pool.run_cases(heavy, 'vf.props.nameeng:run_case', timeout=60, batch=2, on_result=on, deadline=run.deadline)
     return run.finish(
         rule='literal-rich programs: type-confusable value sets (True/1/1.0/"1", 0/False/0.0/-0.0/"", "a"/b"a") repeated across sibling and nested '
@@ -118,7 +119,7 @@ def main(tier, seed):
              'hoist_literals on x rename_globals x rename_locals over all-off/default/random bases; non-trivial/distinct = distinct (source, option set) '
              'with at least one introduced constant alias',
         assumptions=['an alias is recognised as a leading `Name = Constant` statement of a def/module body that the input does not have'],
-        min_nontrivial=150, required_counters=['matcher_runs', 'constant_aliases', 'hoisted_uses', 'typed_literal_programs_run'])
+        min_nontrivial=150, required_counters=['matcher_runs', 'foreign_outputs_compared', 'constant_aliases', 'hoisted_uses', 'typed_literal_programs_run'])
 
 
 def replay(path):
